@@ -1267,9 +1267,18 @@ def check_C03(rep, fl):
     check_ttl_plumbing(rep, fl)
     check_store_writes(rep, fl)
     check_sweeper(rep, fl)
+    # "an entry with no TTL (or a later one) does not disappear because of time": the only judge of a lapsed deadline
+    # that removes anything is the sweeper (above) - a Delete is queued by the caller's remove only, never by a lookup
+    # that met a lapsed entry (by the time the processor applies it the key may have been given a new deadline)
+    import props_life
+    keep_sites(rep, fl, props_life.check_fifo, ("senders of insert_buf_tx",), rule="R03.7")
 
 
 def check_C05(rep, fl):
+    # "reclaimed .. through on_evict": a lapsed entry leaves the store through the sweeper (and a remove / clear /
+    # eviction that happens to hit it), not through a lookup that drops it on the way - the sweep would not find it,
+    # its value reach no callback and its cost stay charged
+    keep_sites(rep, fl, check_removal_inventory, ("shard.*",))
     check_buckets(rep, fl)
     check_em_insert(rep, fl)
     check_em_update(rep, fl)
